@@ -547,6 +547,9 @@ def fixed_shapes():
         ('struct', False, (I('le::U16'), V(I('be::U32'), 'le::U16')), 'np'),
         ('enum', False, 'u8', 0, ((), (I('le::U32'),), (BOOL, V(U8, 'le::U16'))), 'np'),
         ('struct', False, (U8, FX(FS('le::U16'), 'le::U16')), 'np'),
+        ('enum', True, 'u8', 0, ((), (I('be::U32'),), (BOOL, I('le::U16'))), 'np'),
+        FX(('struct', False, (I('be::U16'), V(I('le::U32'), 'u8')), 'np'), 'be::U16'),
+        ('struct', True, (U8, ('struct', True, (I('le::U64'), BOOL), 'tp'), A(I('be::I16'), 2)), 'np'),
         # nesting
         US(U8, UE('u8', 0, [], [U16, V(U16, 'u16')])),
         FX(US(U16, V(U8, 'u8')), 'u16'),
@@ -609,6 +612,68 @@ def random_any(rng, depth):
     return random_unsized(rng, depth) if rng.random() < 0.6 else random_sized(rng, depth)
 
 
+PORTABLE_LENS = ['u8', 'le::U16', 'le::U32', 'be::U16', 'be::U32', 'le::U64']
+
+
+def random_portable(rng, depth, sized=None):
+    """a type every scalar, length type and tag of which has alignment 1, declared portable = true"""
+    if sized is None:
+        sized = rng.random() < 0.4
+    leaf = lambda: rng.choice([U8, I('i8'), BOOL, I('le::U16'), I('be::U32'), I('le::I64'), I('be::F32'), I('le::F64'),
+                               I('be::I16')])
+    if sized:
+        r = rng.random()
+        if depth <= 0 or r < 0.4:
+            return leaf()
+        if r < 0.5:
+            return A(random_portable(rng, depth - 1, True), rng.randint(0, 3))
+        if r < 0.78:
+            n = rng.randint(1, 4)
+            return ('struct', True, tuple(random_portable(rng, depth - 1, True) for _ in range(n)), rng.choice(['np', 'tp']))
+        nv = rng.randint(2, 4)
+        vs = [tuple(random_portable(rng, depth - 1, True) for _ in range(rng.randint(0, 3))) for _ in range(nv)]
+        vs[0] = ()
+        return ('enum', True, 'u8', 0, tuple(vs), rng.choice(['np', 'tp']))
+    r = rng.random()
+    l = rng.choice(PORTABLE_LENS)
+    if depth <= 0 or r < 0.3:
+        k = rng.random()
+        if k < 0.5:
+            return V(random_portable(rng, 1, True), l)
+        if k < 0.75:
+            return FS(l)
+        return FX(random_portable(rng, 0), l)
+    if r < 0.45:
+        return FX(random_portable(rng, depth - 1), l)
+    if r < 0.75:
+        n = rng.randint(0, 3)
+        fs = [random_portable(rng, depth - 1, True) for _ in range(n)] + [random_portable(rng, depth - 1, False)]
+        return ('struct', False, tuple(fs), rng.choice(['np', 'tp']))
+    nv = rng.randint(2, 4)
+    vs = []
+    for _ in range(nv):
+        n = rng.randint(0, 3)
+        if n == 0:
+            vs.append(())
+        else:
+            vs.append(tuple([random_portable(rng, depth - 1, True) for _ in range(n - 1)] + [random_portable(rng, depth - 1)]))
+    vs[0] = ()
+    if all(len(v) == 0 for v in vs):
+        vs.append((random_portable(rng, depth - 1),))
+    return ('enum', False, 'u8', 0, tuple(vs), rng.choice(['np', 'tp']))
+
+
+def declared_portable(t):
+    """the C17 population: #[flat(portable = true)] items, and containers of portable items with portable lengths"""
+    if not is_portable(t):
+        return False
+    if t[0] in ('struct', 'enum'):
+        return t[-1].endswith('p')
+    if t[0] in ('vec', 'flex', 'arr'):
+        return declared_portable(t[1]) or t[1][0] in ('int', 'bool', 'unit')
+    return t[0] in ('str', 'int', 'bool')
+
+
 def small_layer():
     """systematic small layer: field selections of length <= 2 over the (size, align) classes,
     as sized struct, sized enum variant, and prefix of an unsized struct / enum variant"""
@@ -643,6 +708,9 @@ def build(seed, n_random, with_small=False):
         ts += small_layer()
     for _ in range(n_random):
         ts.append(random_any(rng, 3))
+    rngp = random.Random(seed * 613 + 5)
+    for _ in range(max(6, n_random // 4)):
+        ts.append(random_portable(rngp, 3))
     seen = set()
     shapes = []
     for t in ts:
